@@ -259,6 +259,8 @@ pub enum GNode {
     Note(Place, String),
     /// one comment holding several complete tags (text between them), e.g. same-comment blocks
     Multi(Place, Vec<String>),
+    /// Markdown: a list item whose continuation holds the given nodes (html comments indented by two spaces)
+    MdListItem(Vec<GNode>),
 }
 
 #[derive(Clone, Debug)]
@@ -294,6 +296,8 @@ pub struct FileSpec {
 }
 
 struct W<'a> {
+    /// Markdown: currently inside a list item (html comments are indented by two spaces)
+    md_in_list: bool,
     lang: &'a Lang,
     buf: String,
     nl: &'static str,
@@ -345,7 +349,13 @@ impl<'a> W<'a> {
                 // link reference definition used as a comment: [//]: # (text)
                 let lo = self.buf.len();
                 let (o, c) = if i % 2 == 0 { ("(", ")") } else { ("'", "'") };
-                self.buf.push_str("[//]: # ");
+                // CommonMark allows the title of a reference definition on the following line
+                if i % 3 == 2 {
+                    self.buf.push_str("[//]: #");
+                    self.buf.push_str(self.nl);
+                } else {
+                    self.buf.push_str("[//]: # ");
+                }
                 self.buf.push_str(o);
                 self.buf.push_str(&place.pre);
                 emit(self);
@@ -359,7 +369,7 @@ impl<'a> W<'a> {
                 return (lo, hi);
             }
         }
-        let indent = if self.lang.family == Family::Md { "" } else { place.indent.as_str() };
+        let indent = if self.lang.family == Family::Md && !self.md_in_list { "" } else if self.lang.family == Family::Md { "  " } else { place.indent.as_str() };
         self.buf.push_str(indent);
         let lo = self.buf.len();
         match &place.form {
@@ -429,6 +439,9 @@ impl<'a> W<'a> {
     fn node(&mut self, n: &GNode, depth: usize) {
         match n {
             GNode::Text(t) => {
+                if self.md_in_list {
+                    self.buf.push_str("  ");
+                }
                 self.buf.push_str(t);
                 self.buf.push_str(self.nl);
             }
@@ -443,6 +456,19 @@ impl<'a> W<'a> {
                         w.buf.push_str(p);
                     }
                 });
+            }
+            GNode::MdListItem(inner) => {
+                self.md_break();
+                self.buf.push_str("- item");
+                self.buf.push_str(self.nl);
+                self.buf.push_str(self.nl);
+                let was = self.md_in_list;
+                self.md_in_list = true;
+                for c in inner {
+                    self.node(c, depth);
+                }
+                self.md_in_list = was;
+                self.buf.push_str(self.nl);
             }
             GNode::Blk(b) => {
                 let tag = b.tag.render();
@@ -470,7 +496,7 @@ impl<'a> W<'a> {
 }
 
 pub fn render(fs: &FileSpec) -> Rendered {
-    let mut w = W { lang: fs.lang, buf: String::new(), nl: if fs.crlf { "\r\n" } else { "\n" }, spans: Vec::new(), blocks: Vec::new() };
+    let mut w = W { md_in_list: false, lang: fs.lang, buf: String::new(), nl: if fs.crlf { "\r\n" } else { "\n" }, spans: Vec::new(), blocks: Vec::new() };
     if fs.crlf {
         w.buf.push_str(&fs.lang.prelude.replace('\n', "\r\n"));
     } else {
